@@ -131,13 +131,13 @@ let () =
           let d = match zlist_of_hex dh with [x] -> x | _ -> z_of_int 9 in
           let out = simple_cleaning script_of is_punct is_uspace (n_of_int !common) (n_of_int !inherited)
               (too_common (f32 (float_of_string mci))) (little_punct (f32 (float_of_string mp))) (script_low cs (f32 (float_of_string ms)))
-              o (parse_ranges ranges) d (lines_of (zlist_of_hex (undash h))) in
+              o (parse_ranges ranges) d (lines_of_parallel (zlist_of_hex (undash h))) in
           print_endline ("OK " ^ hx (bytes_of out))
         | ["T"; mc; run; sample; mci; mp; ranges; dh; h] ->
           let d = match zlist_of_hex dh with [x] -> x | _ -> z_of_int 9 in
           let out = simple_cleaning script_of is_punct is_uspace (n_of_int !common) (n_of_int !inherited)
               (too_common (f32 (float_of_string mci))) (little_punct (f32 (float_of_string mp))) script_low_none
-              (sc_opts mc run sample) (parse_ranges ranges) d (lines_of (zlist_of_hex (undash h))) in
+              (sc_opts mc run sample) (parse_ranges ranges) d (lines_of_parallel (zlist_of_hex (undash h))) in
           print_endline ("OK " ^ hx (bytes_of out))
         | _ -> print_endline "?"
       with Failure m -> print_endline ("FAIL " ^ m))
